@@ -1,8 +1,37 @@
 (* C01_offsets_select_remap: the offsets stored per singular pair address exactly the block of the concatenated
    point array that was produced by the remap named by the pair's local indices. *)
 From Coq Require Import QArith ZArith List Bool Lia.
-From BV Require Import Quad.Rules Quad.C12Lemmas Grid.Topology Grid.AdjacencyFacts Grid.SingularOffsets.
+From BV Require Import Quad.Rules Quad.DuffyMoments Quad.DuffyExact Grid.Topology Grid.AdjacencyFacts Grid.SingularOffsets.
 Import ListNotations.
+
+(* lengths of the Duffy rules without the exactness sweeps of C12 (keeps these theorems free of the primitive-integer
+   axioms): the n-point Gauss rule has n points, for every accepted n, by a finite sweep over the lookup *)
+Definition gauss_len_ok (o : Z) : bool :=
+  match gauss_rule o with Some r => Nat.eqb (length r) (Z.to_nat o) | None => false end.
+Lemma gauss_len_sweep : forallb gauss_len_ok (map Z.of_nat (seq 1 30)) = true.
+Proof. vm_compute. reflexivity. Qed.
+Lemma gauss_ruleQ_len order xw : (1 <= order <= 30)%Z -> gauss_ruleQ order = Some xw -> length xw = Z.to_nat order.
+Proof.
+  intros Ho H.
+  assert (Hin : In order (map Z.of_nat (seq 1 30))).
+  { replace order with (Z.of_nat (Z.to_nat order)) by lia. apply in_map, in_seq. lia. }
+  pose proof (proj1 (forallb_forall _ _) gauss_len_sweep order Hin) as S. unfold gauss_len_ok in S.
+  unfold gauss_ruleQ in H. destruct (gauss_rule order) as [r|]; [|discriminate].
+  inversion H; subst. rewrite map_length. apply Nat.eqb_eq. exact S.
+Qed.
+Lemma duffy_counts order adj pts :
+  (1 <= order <= 30)%Z -> (adj < 3)%nat -> duffy order adj = Some pts ->
+  Z.of_nat (length pts) = (count_factor_of adj * order ^ 4)%Z /\
+  count_factor_of adj = match adj with 0%nat => 6%Z | 1%nat => 5%Z | _ => 2%Z end.
+Proof.
+  intros Ho Ha H. unfold duffy in H. destruct (gauss_ruleQ order) as [xw|] eqn:E; [|discriminate].
+  inversion H; subst. rewrite duffy_rule_length, (gauss_ruleQ_len _ _ Ho E).
+  destruct region_counts as (c6 & c5 & c2 & f6 & f5 & f2).
+  assert (Hn : Z.of_nat (Z.to_nat order) = order) by lia.
+  destruct adj as [|[|[|adj]]]; try lia; cbn [regions_of count_factor_of];
+    rewrite ?c6, ?c5, ?c2, ?f6, ?f5, ?f2; (split; [|reflexivity]);
+    rewrite !Nat2Z.inj_mul, Hn; ring.
+Qed.
 
 Lemma drop_app_length {A} (a l : list A) k : drop (length a + k) (a ++ l) = drop k l.
 Proof. induction a as [|x a IH]; cbn; [reflexivity|exact IH]. Qed.
@@ -86,10 +115,10 @@ Qed.
 
 (* for the actual rules of duffy_galerkin.rule(order, .), orders 1..30, with the offsets of
    _compute_edge_offsets / _compute_vertex_offsets; [proj] is test_pt or trial_pt *)
-Theorem offsets_select_remap order rc re rv (proj : qpoint -> Q * Q) :
+Theorem offsets_select_remap order rc re rv (proj : qpoint -> Q * Q) (wp : qpoint -> Q) :
   (1 <= order <= 30)%Z -> duffy order 0 = Some rc -> duffy order 1 = Some re -> duffy order 2 = Some rv ->
   let P := vectorize_points (map proj rc) (map proj re) (map proj rv) in
-  let W := vectorize_weights (map q_w rc) (map q_w re) (map q_w rv) in
+  let W := vectorize_weights (map wp rc) (map wp re) (map wp rv) in
   (npts order 0 = 6 * order ^ 4 /\ npts order 1 = 5 * order ^ 4 /\ npts order 2 = 2 * order ^ 4)%Z /\
   slice 0 (Z.to_nat (npts order 0)) P = map proj rc /\
   (forall i0 i1, (i0 < 3)%nat -> (i1 < 3)%nat -> i0 <> i1 ->
@@ -98,9 +127,9 @@ Theorem offsets_select_remap order rc re rv (proj : qpoint -> Q * Q) :
   (forall k, (k < 3)%nat ->
      (0 <= vertex_offset order k < 2 ^ 32)%Z /\
      slice (Z.to_nat (vertex_offset order k)) (Z.to_nat (npts order 2)) P = map (remap_vertex k) (map proj rv)) /\
-  slice 0 (Z.to_nat (npts order 0)) W = map q_w rc /\
-  slice (Z.to_nat (npts order 0)) (Z.to_nat (npts order 1)) W = map q_w re /\
-  slice (Z.to_nat (npts order 0 + npts order 1)) (Z.to_nat (npts order 2)) W = map q_w rv.
+  slice 0 (Z.to_nat (npts order 0)) W = map wp rc /\
+  slice (Z.to_nat (npts order 0)) (Z.to_nat (npts order 1)) W = map wp re /\
+  slice (Z.to_nat (npts order 0 + npts order 1)) (Z.to_nat (npts order 2)) W = map wp rv.
 Proof.
   intros Ho Hc He Hv P W.
   destruct (duffy_counts order 0 rc Ho ltac:(lia) Hc) as [Lc Fc].
@@ -113,7 +142,7 @@ Proof.
   { split; [apply (Z.pow_le_mono_l 1 order 4); lia|apply Z.pow_le_mono_l; lia]. }
   split; [unfold npts; rewrite Fc, Fe, Fv; auto|].
   destruct (points_blocks (map proj rc) (map proj re) (map proj rv)) as (PB0 & PB1 & PB2).
-  destruct (weights_blocks (map q_w rc) (map q_w re) (map q_w rv)) as (WB0 & WB1 & WB2).
+  destruct (weights_blocks (map wp rc) (map wp re) (map wp rv)) as (WB0 & WB1 & WB2).
   rewrite !map_length in *. rewrite N0, N1, N2, !Nat2Z.id.
   split; [exact PB0|]. split; [|split; [|split; [exact WB0|split; [exact WB1|]]]].
   - intros i0 i1 H0 H1 Hn. destruct (edge_order_index i0 i1 H0 H1 Hn) as [R _].
